@@ -126,3 +126,13 @@ def func_src(fi: FuncInfo, node) -> str:
         return ast.unparse(node)
     except Exception:
         return ''
+
+
+def targ(t: Term, name: str, i: int = None):
+    """argument of a (normalised) library-call term by parameter name, falling back to a position"""
+    v = t.kw(name)
+    if v is not None:
+        return v
+    if i is not None and i < len(t.args):
+        return t.args[i]
+    return None
